@@ -91,14 +91,14 @@ func (e *Engine) rhe(n, d *Term, hint string) *Term {
 		if q, ok := e.roundMemo[key]; ok {
 			return q
 		}
-		q := e.freshVar(hint + "_q")
+		q := e.keyedVar(hint+"_q", key)
 		e.roundMemo[key] = q
-		r := e.freshVar(hint + "_e")
+		r := e.keyedVar(hint+"_e", key)
 		e.pc = append(e.pc, Cmp("=", Mul(q, d), Add(n, r)))
 		e.pc = append(e.pc, Cmp("<=", Mul(KI(2), r), d))
 		e.pc = append(e.pc, Cmp(">=", Mul(KI(2), r), Neg(d)))
 		e.defs = append(e.defs, Cmp("=", q, Op2("rhe", n, d)))
-		e.refine = append(e.refine, e.tieRule(q, r, d))
+		e.refine = append(e.refine, e.tieRule(q, r, d, key))
 		e.signLemma(q, n, false)
 		return q
 	}
@@ -106,8 +106,8 @@ func (e *Engine) rhe(n, d *Term, hint string) *Term {
 }
 
 // tieRule: at an exact tie (2r = ±d) the quotient is even (round half to even).
-func (e *Engine) tieRule(q, r, d *Term) *Term {
-	k := e.freshVar("even")
+func (e *Engine) tieRule(q, r, d *Term, key string) *Term {
+	k := e.keyedVar("even", key)
 	tie := Or(Cmp("=", Mul(KI(2), r), d), Cmp("=", Mul(KI(2), r), Neg(d)))
 	return Or(Not(tie), Cmp("=", q, Mul(KI(2), k)))
 }
@@ -122,9 +122,9 @@ func (e *Engine) trunc(n, d *Term, hint string) *Term {
 		if q, ok := e.roundMemo[key]; ok {
 			return q
 		}
-		q := e.freshVar(hint + "_q")
+		q := e.keyedVar(hint+"_q", key)
 		e.roundMemo[key] = q
-		r := e.freshVar(hint + "_r")
+		r := e.keyedVar(hint+"_r", key)
 		e.pc = append(e.pc, Cmp("=", n, Add(Mul(q, d), r)))
 		e.pc = append(e.pc, Ite(Cmp(">=", n, KI(0)),
 			And(Cmp(">=", r, KI(0)), Cmp("<", r, d)),
@@ -149,9 +149,9 @@ func (e *Engine) ceil(n, d *Term, hint string) *Term {
 		if q, ok := e.roundMemo[key]; ok {
 			return q
 		}
-		q := e.freshVar(hint + "_q")
+		q := e.keyedVar(hint+"_q", key)
 		e.roundMemo[key] = q
-		r := e.freshVar(hint + "_r")
+		r := e.keyedVar(hint+"_r", key)
 		e.pc = append(e.pc, Cmp("=", Mul(q, d), Add(n, r)))
 		e.pc = append(e.pc, Cmp(">=", r, KI(0)))
 		e.pc = append(e.pc, Cmp("<", r, d))
@@ -205,9 +205,9 @@ func (e *Engine) decQuo(a, b *Term) *Term {
 		if q, ok := e.roundMemo[key]; ok {
 			return q
 		}
-		q := e.freshVar("quo_q")
+		q := e.keyedVar("quo_q", key)
 		e.roundMemo[key] = q
-		r := e.freshVar("quo_e")
+		r := e.keyedVar("quo_e", key)
 		// q*b = a*1e18 + r ; 2|r|*1e18 <= b*(1e18+2)  (superset of the double rounding)
 		e.pc = append(e.pc, Cmp("=", Mul(q, b), Add(Mul(a, kE), r)))
 		bound := Mul(b, K(new(big.Int).Add(E18, big.NewInt(2))))
@@ -215,7 +215,7 @@ func (e *Engine) decQuo(a, b *Term) *Term {
 		e.pc = append(e.pc, Cmp(">=", Mul(K(new(big.Int).Mul(big.NewInt(2), E18)), r), Neg(bound)))
 		e.defs = append(e.defs, Cmp("=", q, exact))
 		// refinement (b > 0 here): t = trunc(a*1e36/b), q = rhe(t, 1e18)
-		t, rt, r2 := e.freshVar("quo_t"), e.freshVar("quo_rt"), e.freshVar("quo_r2")
+		t, rt, r2 := e.keyedVar("quo_t", key), e.keyedVar("quo_rt", key), e.keyedVar("quo_r2", key)
 		e.refine = append(e.refine, Cmp("=", Mul(a, kE36), Add(Mul(t, b), rt)))
 		e.refine = append(e.refine, Ite(Cmp(">=", a, KI(0)),
 			And(Cmp(">=", rt, KI(0)), Cmp("<", rt, b)),
@@ -223,7 +223,7 @@ func (e *Engine) decQuo(a, b *Term) *Term {
 		e.refine = append(e.refine, Cmp("=", Mul(q, kE), Add(t, r2)))
 		e.refine = append(e.refine, Cmp("<=", Mul(KI(2), r2), kE))
 		e.refine = append(e.refine, Cmp(">=", Mul(KI(2), r2), Neg(kE)))
-		e.refine = append(e.refine, e.tieRule(q, r2, kE))
+		e.refine = append(e.refine, e.tieRule(q, r2, kE, key))
 		e.signLemma(q, a, false)
 		return q
 	}
